@@ -10,6 +10,12 @@
        NT loopback upstreams; inv/ret bracket the whole call, and TLC searches for a linearisation:
        an order that respects real time (ret(a) < inv(b) => a before b) in which every selection is
        the one LoadBalancer.tla's Sel_Read/Sel_Write produce from the current index.
+   The search keeps one cursor per thread (a thread's calls are sequential, the file is ordered by `inv`): the next
+   call of thread t may be linearised when no other thread still has an un-linearised call that RETURNED before it
+   was invoked.  Groups of hundreds of overlapping handler calls (8 threads x 300) are linearised this way in
+   seconds; a lost update (two overlapping calls served from the same index) leaves no linearisation.
+   Independently of the search, BadCounts lists the round-robin groups in which some target was not chosen
+   floor(T/n) or ceil(T/n) times (T completed calls, n targets): a strict rotation cannot produce that.
    A file holds many groups, each introduced by a "cfg" record (nt, mode, start index).  The trace is
    accepted iff all groups can be linearised: the invariant NotAccepted is then VIOLATED (that is the
    success signal); if TLC finishes without a violation, no linearisation exists and the last printed
@@ -28,29 +34,47 @@ NG == Cardinality(CfgIdx)
 \* constant-level definitions are evaluated once by TLC
 StartSeq == [x \in 1..NG |-> CHOOSE i \in CfgIdx : Cardinality({ j \in CfgIdx : j < i }) = x - 1]
 GroupStart(x) == StartSeq[x]
-GroupEnd(g) == IF g = NG THEN Len(Rec) ELSE GroupStart(g + 1) - 1
-Calls(g) == (GroupStart(g) + 1)..GroupEnd(g)
+GroupEnd(x) == IF x = NG THEN Len(Rec) ELSE GroupStart(x + 1) - 1
+Calls(x) == (GroupStart(x) + 1)..GroupEnd(x)
+NThreads(x) == Rec[GroupStart(x)].t
+\* per group and thread: the record indices of that thread's calls, in file (= invocation) order
+ByThread == [x \in 1..NG |-> [t \in 1..NThreads(x) |->
+               SelectSeq([i \in 1..(GroupEnd(x) - GroupStart(x)) |-> GroupStart(x) + i], LAMBDA i : Rec[i].t = t)]]
 
-VARIABLES g, done, idx
-vars == <<g, done, idx>>
-Init == g = 1 /\ done = {} /\ idx = (IF NG = 0 THEN 0 ELSE Rec[GroupStart(1)].start)
+\* strict rotation => every target chosen floor(T/n) or ceil(T/n) times
+CountOf(x, r) == Cardinality({ c \in Calls(x) : Rec[c].r = r })
+BadCounts == { x \in 1..NG : LET cf == Rec[GroupStart(x)]  T == Cardinality(Calls(x)) IN
+                 cf.mode = "RoundRobin" /\
+                 \/ \E c \in Calls(x) : Rec[c].r \notin 1..cf.nt
+                 \/ \E r \in 1..cf.nt : CountOf(x, r) < T \div cf.nt \/ CountOf(x, r) > (T + cf.nt - 1) \div cf.nt }
 
-Lin(c) ==
-  LET cf == Rec[GroupStart(g)] IN
-  /\ c \notin done
-  /\ \A d \in Calls(g) : Rec[d].ret < Rec[c].inv => d \in done
+VARIABLES g, ptr, idx          \* current group, per-thread cursor into ByThread[g][t], balancer index
+vars == <<g, ptr, idx>>
+MaxT == IF NG = 0 THEN 1 ELSE CHOOSE m \in { NThreads(x) : x \in 1..NG } : \A x \in 1..NG : NThreads(x) <= m
+Ptr0 == [t \in 1..MaxT |-> 1]
+Init == /\ g = 1 /\ ptr = Ptr0 /\ idx = (IF NG = 0 THEN 0 ELSE Rec[GroupStart(1)].start)
+        /\ PrintT(ToJson([badcounts |-> BadCounts, groups |-> NG]))
+
+Pending(t) == ptr[t] <= Len(ByThread[g][t])
+NextOf(t)  == ByThread[g][t][ptr[t]]
+
+Lin(t) ==
+  LET cf == Rec[GroupStart(g)]
+      c  == NextOf(t) IN
+  /\ Pending(t)
+  /\ \A u \in 1..NThreads(g) : (u # t /\ Pending(u)) => ~(Rec[NextOf(u)].ret < Rec[c].inv)
   /\ IF cf.mode = "RoundRobin"
      THEN Rec[c].r = TargetAt(idx, cf.nt) /\ idx' = Advance(idx, cf.nt, {})
      ELSE Rec[c].r \in RandomChoices(cf.nt, {}) /\ idx' = idx
-  /\ done' = done \cup {c} /\ g' = g
+  /\ ptr' = [ptr EXCEPT ![t] = ptr[t] + 1] /\ g' = g
 
 NextGroup ==
-  /\ g <= NG /\ done = Calls(g)
+  /\ g <= NG /\ \A t \in 1..NThreads(g) : ~Pending(t)
   /\ PrintT(ToJson([group |-> g, calls |-> Cardinality(Calls(g))]))
-  /\ g' = g + 1 /\ done' = {}
+  /\ g' = g + 1 /\ ptr' = Ptr0
   /\ idx' = IF g + 1 <= NG THEN Rec[GroupStart(g + 1)].start ELSE 0
 
-Next == (g <= NG /\ \E c \in Calls(g) : Lin(c)) \/ NextGroup
+Next == (g <= NG /\ \E t \in 1..NThreads(g) : Lin(t)) \/ NextGroup
 Spec == Init /\ [][Next]_vars
 
 NotAccepted == g <= NG
